@@ -166,6 +166,7 @@ func runC13(p *core.Prog, r *core.Report) {
 	}
 	safe, _ := boolTable(p, "logger", "safeSet")
 	tables := map[string][]constant.Value{"safeSet": safe}
+	derivedBoolTables(p, "logger", tables)
 	var bad []string
 	undec := 0
 	nBare, nQuote := 0, 0
